@@ -131,6 +131,12 @@ def step (st : St) (l : String) : St × String :=
     else match vecOfTok v with
       | some vb => ({ st with idx := { st.idx with cmds := st.idx.cmds ++ [vb.map toF32] } }, "ok")
       | none => (st, "bad-op")
+  | "reloadce" :: vs =>
+    -- LoadCommandEmbeddings of a well-formed file into the same index: the command embeddings are replaced
+    if !st.hasIdx || vs.isEmpty then (st, "bad-op")
+    else match vs.mapM vecOfTok with
+      | some vecs => ({ st with idx := { st.idx with cmds := vecs.map (·.map toF32) } }, "ok")
+      | none => (st, "bad-op")
   | ["db", n, _built] =>
     match natOf? n with
     | some k => ({ st with dbSize := some k, attached := false }, "ok")
